@@ -142,6 +142,63 @@ theorem C13_order_table_valid (r : ClassRow) (hr : r ∈ Gen.ClassRows.rows) (co
 def C13_full (S : Schema) {Input : Type} (emit : Input → XNode) : Prop :=
   ∀ i, valid S (emit i) = true
 
+/-! ## The unchanged code does not satisfy `C13_full`
+
+Concrete documents of the shapes the implementation was observed to emit (the inputs are replayed
+against the real code from `corpus/C13/findings.json`): they are refuted by the validator, and the
+same documents with the one defect repaired are accepted — so the refutation is due to that defect. -/
+
+open Gen.Schema in
+private def assertionEx (id : String) : XNode :=
+  .mk WK.Assertion [(WK.aVersion, "2.0".toList), (WK.aID, id.toList), (WK.aIssueInstant, "2026-09-21T14:13:20Z".toList)] []
+    [.mk WK.Issuer [] "https://idp.example/idp".toList []]
+
+open Gen.Schema in
+/-- `Server.create_authn_query_response` with two stored statements: both assertions carry the ID
+    produced by ONE call of `message_args()`. -/
+def dupIdResponse (id1 id2 : String) : XNode :=
+  .mk WK.Response [(WK.aID, "r1".toList), (WK.aVersion, "2.0".toList), (WK.aIssueInstant, "2026-09-21T14:13:20Z".toList)] []
+    [.mk WK.Status [] [] [.mk WK.StatusCode [(WK.aValue, "urn:oasis:names:tc:SAML:2.0:status:Success".toList)] [] []],
+     assertionEx id1, assertionEx id2]
+
+open Gen.Schema in
+/-- `Base.create_authz_decision_query_using_assertion`: `saml.Action(text=a)` has no `Namespace`. -/
+def authzQuery (actionAttrs : List (QN × List Char)) : XNode :=
+  .mk WK.AuthzDecisionQuery [(WK.aID, "q1".toList), (WK.aVersion, "2.0".toList), (WK.aIssueInstant, "2026-09-21T14:13:20Z".toList),
+      (WK.aResource, "urn:r".toList)] []
+    [.mk WK.Subject [] [] [.mk WK.NameID [] "subject-1".toList []],
+     .mk WK.Action actionAttrs "read".toList []]
+
+theorem C13_dup_id_rejected : verdict Gen.Schema.schema (dupIdResponse "a1" "a1") = some .dupId := by decide +kernel
+theorem C13_distinct_id_accepted : valid Gen.Schema.schema (dupIdResponse "a1" "a2") = true := by decide +kernel
+theorem C13_action_without_namespace_rejected :
+    verdict Gen.Schema.schema (authzQuery []) = some .missingAttr := by decide +kernel
+theorem C13_action_with_namespace_accepted :
+    valid Gen.Schema.schema (authzQuery [(Gen.Schema.WK.aNamespace, "urn:oasis:names:tc:SAML:1.0:action:rwedc".toList)]) = true := by
+  decide +kernel
+
+/-- `C13_full` fails for any emitter that produces the observed document (the implementation does,
+    see the corpus replay): known findings, not repaired here. -/
+theorem C13_counterexample_dup_id : ¬ C13_full Gen.Schema.schema (fun (_ : Unit) => dupIdResponse "a1" "a1") := by
+  intro h
+  have h1 := h ()
+  have h2 := C13_dup_id_rejected
+  unfold valid at h1
+  unfold verdict at h2
+  split at h1
+  · simp_all
+  · cases h1
+
+theorem C13_counterexample_action_namespace : ¬ C13_full Gen.Schema.schema (fun (_ : Unit) => authzQuery []) := by
+  intro h
+  have h1 := h ()
+  have h2 := C13_action_without_namespace_rejected
+  unfold valid at h1
+  unfold verdict at h2
+  split at h1
+  · simp_all
+  · cases h1
+
 /-! ## Non-vacuity -/
 
 private def satN (s : Nat) (x : Nat) : Bool := s == x
